@@ -42,6 +42,9 @@ type CaseC19 struct {
 	// descriptors' values only, not on what a tracker has seen): 1 = B, C, then a program breakaway; 2 = A, B, C, then Close(A);
 	// 3 = B, a breakaway, then A
 	Track int `json:"track,omitempty"`
+	// Shared: A and B are two descriptors of one and the same signal (siblings): the relations are about the descriptors'
+	// values, not about who owns them
+	Shared bool `json:"shared_signal,omitempty"`
 }
 
 func genDescC19(t *rapid.T, label string, like *DescC19) DescC19 {
@@ -135,6 +138,14 @@ func genC19(t *rapid.T) CaseC19 {
 	if rapid.IntRange(0, 2).Draw(t, "tracked") == 0 {
 		k.Track = rapid.IntRange(1, 3).Draw(t, "track-kind")
 	}
+	if k.A.HasPTS && rapid.IntRange(0, 3).Draw(t, "shared-signal") == 0 {
+		// siblings share the signal time; both are attached, API-built and not cancelled
+		k.Shared = true
+		k.A.Decoded, k.A.Cancel, k.A.Unattached = false, false, false
+		k.B.HasPTS, k.B.PTS, k.B.Adj, k.B.SigKind = true, k.A.PTS, k.A.Adj, 0
+		k.B.Decoded, k.B.Cancel, k.B.Unattached = false, false, false
+		k.A.SigKind = 0
+	}
 	return k
 }
 
@@ -168,7 +179,8 @@ func c19Track(c CaseC19, objs []scte35.SegmentationDescriptor) *hx.Failure {
 }
 
 // c19Build makes a real descriptor attached to a real signal.
-func c19Build(d *DescC19) (scte35.SegmentationDescriptor, *hx.Failure) {
+// c19W is the reference descriptor for d.
+func c19W(d *DescC19) ref.SpliceDesc {
 	w := d.Rest
 	w.Foreign = false
 	w.Identifier = ref.CUEI
@@ -179,6 +191,24 @@ func c19Build(d *DescC19) (scte35.SegmentationDescriptor, *hx.Failure) {
 	if over := len(w.Bytes()) - 2 - 255; over > 0 && len(w.UPID) >= over {
 		w.UPID = w.UPID[:len(w.UPID)-over] // descriptor_length is one byte
 	}
+	return w
+}
+
+// c19BuildShared makes a and b two descriptors of ONE signal (a time_signal built through the API, at a's signal time).
+func c19BuildShared(a, b *DescC19) ([]scte35.SegmentationDescriptor, *hx.Failure) {
+	m := ref.Splice{TableID: 0xFC, Tier: 0xFFF, Descs: []ref.SpliceDesc{c19W(a), c19W(b)}}
+	m.Cmd, m.TSHasPTS, m.TSPTS = 0x06, true, (a.PTS-a.Adj)&m33
+	m.Adj = a.Adj & m33
+	m.Ins = ref.SpliceInsert{Comps: []ref.SpliceComp{}}
+	s := buildSpliceAPI(&m, 0)
+	if len(s.Descriptors()) != 2 {
+		return nil, hx.Failf("api-build", "API-built signal has %d descriptors, want 2", len(s.Descriptors()))
+	}
+	return s.Descriptors(), nil
+}
+
+func c19Build(d *DescC19) (scte35.SegmentationDescriptor, *hx.Failure) {
+	w := c19W(d)
 	if d.Unattached && !d.HasPTS && !d.Decoded {
 		// a descriptor straight from the creation API that no signal owns (yet)
 		o := scte35.CreateSegmentationDescriptor()
@@ -282,10 +312,23 @@ type c19Wrapped struct {
 func checkC19(c CaseC19, x *hx.Ctx) *hx.Failure {
 	ds := []*DescC19{&c.A, &c.B, &c.C}
 	var objs []scte35.SegmentationDescriptor
-	for _, d := range ds {
-		o, f := c19Build(d)
-		if f != nil {
+	var shared []scte35.SegmentationDescriptor
+	if c.Shared {
+		var f *hx.Failure
+		if shared, f = c19BuildShared(&c.A, &c.B); f != nil {
 			return f
+		}
+		x.Label("siblings-of-one-signal")
+	}
+	for i, d := range ds {
+		var o scte35.SegmentationDescriptor
+		if c.Shared && i < 2 {
+			o = shared[i]
+		} else {
+			var f *hx.Failure
+			if o, f = c19Build(d); f != nil {
+				return f
+			}
 		}
 		objs = append(objs, o)
 		if d.Cancel && byte(o.TypeID()) != d.Type {
@@ -379,7 +422,7 @@ func descKey(d *DescC19) string {
 var propC19 = hx.Register(hx.Prop[CaseC19]{ID: "C19", Gen: genC19, Check: checkC19})
 
 func c19Rule() {
-	hx.Rec("C19").SetRule("rapid cases: three descriptors (named or arbitrary type, event id in 1..3, signal with PTS in {1000,2000,2^33-1} (time_signal or timed splice_insert) or without PTS (splice_null, immediate or cancelled splice_insert, time-less time_signal, or no signal at all: a descriptor fresh from the creation API), segment number/expected in 0..2, sub-segment fields for 0x34/0x36), the second and third derived from the first with one or two compared attributes (incl. the type: start/end partner or any named type) changed half of the time, ALL other descriptor fields drawn freely or (one derived descriptor in three) identical to the first's (flags, components, duration, UPID/MID, the cancel indicator on API-built ones, the split of the signal time into pts_time + pts_adjustment), each realised either through the creation API or by decoding a reference encoding; one descriptor in six carries the multiple-UPID list of a stream-switch signal (half of those with type 0x40); in one case in three the three descriptors first go through a state tracker (processed, followed by a program breakaway, or closed explicitly); CanClose on all 9 ordered pairs vs the hand-transcribed rule table (also with the argument wrapped in a decorator type that embeds the interface), IsIn/IsOut vs the documented lists, Equal vs its definition, symmetry, transitivity and congruence on the triple. Enumerated: all 256x256 type pairs x event-equal x PTS-equal x (segment number = expected) x incoming has sub-segments (65536 x 16), IsIn/IsOut for all 256 types, and all ordered pairs of a 720-descriptor family for the equality laws. Non-trivial: a pair with a table entry, or an equal pair.",
+	hx.Rec("C19").SetRule("rapid cases: three descriptors (named or arbitrary type, event id in 1..3, signal with PTS in {1000,2000,2^33-1} (time_signal or timed splice_insert) or without PTS (splice_null, immediate or cancelled splice_insert, time-less time_signal, or no signal at all: a descriptor fresh from the creation API), segment number/expected in 0..2, sub-segment fields for 0x34/0x36), the second and third derived from the first with one or two compared attributes (incl. the type: start/end partner or any named type) changed half of the time, ALL other descriptor fields drawn freely or (one derived descriptor in three) identical to the first's (flags, components, duration, UPID/MID, the cancel indicator on API-built ones, the split of the signal time into pts_time + pts_adjustment), each realised either through the creation API or by decoding a reference encoding; one descriptor in six carries the multiple-UPID list of a stream-switch signal (half of those with type 0x40); in one case in four the first two descriptors are siblings in one signal; in one case in three the three descriptors first go through a state tracker (processed, followed by a program breakaway, or closed explicitly); CanClose on all 9 ordered pairs vs the hand-transcribed rule table (also with the argument wrapped in a decorator type that embeds the interface), IsIn/IsOut vs the documented lists, Equal vs its definition, symmetry, transitivity and congruence on the triple. Enumerated: all 256x256 type pairs x event-equal x PTS-equal x (segment number = expected) x incoming has sub-segments (65536 x 16), IsIn/IsOut for all 256 types, and all ordered pairs of a 720-descriptor family for the equality laws. Non-trivial: a pair with a table entry, or an equal pair.",
 		"the rule table is a transcription of the pinned commit's documented rules (the property is defined relative to it)",
 		"the DiffPTS rule is only asserted when both signals carry a PTS")
 }
